@@ -23,6 +23,11 @@ pub(crate) struct Thread {
     /// when `park` returns, not before.
     unpark_causality: VersionVec,
 
+    /// Object the thread's `park` and the other threads' `unpark` calls branch
+    /// on, which makes them dependent operations for partial-order reduction.
+    /// Created on first use.
+    pub(super) park_object: Option<super::Notify>,
+
     /// True if the thread is in a critical section
     pub critical: bool,
 
@@ -109,6 +114,7 @@ impl Thread {
             parked: false,
             unpark_token: false,
             unpark_causality: VersionVec::new(),
+            park_object: None,
             critical: false,
             operation: None,
             causality: VersionVec::new(),
